@@ -46,6 +46,15 @@ def check(repo, tier="quick"):
     for _o in _c07.check(repo, "quick").obs:
         res._add(_Ob("C15.i", "%s/%s" % (_o.rule, _o.key), _o.where, _o.status, _o.detail, _o.by, _o.path))
     res.floor("C15.i", 100)
+    # ... and each sequence's header is judged on its own: what survives reset_state (C10.b, C10.c re-evaluated)
+    from . import c10 as _c10
+    from ..report import Result as _Res
+
+    _sub = _Res("C10")
+    _ret = _c10.rule_b(repo, _sub)
+    _c10.rule_c(repo, _sub, _ret)
+    for _o in _sub.obs:
+        res._add(_Ob("C15.i", "%s/%s" % (_o.rule, _o.key), _o.where, _o.status, _o.detail, _o.by, _o.path))
     from .c16 import level_filter_rule
 
     level_filter_rule(repo, res, "C15.e")
